@@ -170,7 +170,7 @@ class T4(P.Translator2):
         class Sub(ast.NodeTransformer):
             def visit_Name(self, n):
                 key = "\0defer:" + n.id
-                if isinstance(n.ctx, ast.Load) and key in scope:
+                if isinstance(n.ctx, ast.Load) and key in scope and n.id not in scope:
                     expr_, snap = tr._defer_store[int(scope[key][2:])]
                     for nm, was in snap.items():
                         if scope.get(nm) != was:
@@ -187,10 +187,93 @@ class T4(P.Translator2):
         for n in ast.walk(target):
             if isinstance(n, ast.Name):
                 sc.pop("\0defer:" + n.id, None)
+                sc.pop("\0prov:" + n.id, None)
         return lines, sc
 
-    def expr(self, node, scope):
-        node = self._subst(node, scope)
+    # ---------------------------------------------------------------- marks that survive assignment to a local
+    # `cur = self.target` ... `cur is None`: a rule written about `self.target is None` must still apply.  Every local
+    # bound to a side-effect free expression remembers that expression; when no rule matches an expression as written, the
+    # rules get a second chance on the expression with such locals expanded (valid only while the operands are unchanged).
+    def _expand_prov(self, node, scope):
+        if not any(k.startswith("\0prov:") for k in scope):
+            return None
+        tr, hit = self, []
+
+        class Sub(ast.NodeTransformer):
+            def visit_Name(self, n):
+                key = "\0prov:" + n.id
+                if isinstance(n.ctx, ast.Load) and key in scope:
+                    expr_, snap = tr._defer_store[int(scope[key][2:])]
+                    # valid only while the operands AND the local itself still have the binding they had then
+                    if all(scope.get(nm) == was for nm, was in snap.items()):
+                        import copy
+                        hit.append(n.id)
+                        return copy.deepcopy(expr_)
+                return n
+        import copy
+        alt = Sub().visit(copy.deepcopy(node))
+        return alt if hit else None
+
+    # ---------------------------------------------------------------- one call, several spellings
+    def _resolve_callee(self, func):
+        """the live callable a `Name` / dotted `Name.attr` in the function's module denotes, or None"""
+        chain = []
+        while isinstance(func, ast.Attribute):
+            chain.append(func.attr)
+            func = func.value
+        if not isinstance(func, ast.Name):
+            return None
+        g = getattr(self, "_globals", {}) or {}
+        obj = g.get(func.id)
+        if obj is None:
+            try:
+                obj = _cls(func.id)
+            except Untranslatable:
+                return None
+        for a in reversed(chain):
+            obj = getattr(obj, a, None)
+            if obj is None:
+                return None
+        return obj
+
+    def _call_variants(self, node):
+        """the same call with keyword arguments moved to their positions / trailing positional arguments named, one
+        step at a time (`UniformScale(s, n_dims=n, skip_checks=True)` = `UniformScale(s, n, skip_checks=True)`)"""
+        if not isinstance(node, ast.Call) or any(isinstance(a, ast.Starred) for a in node.args) \
+                or any(k.arg is None for k in node.keywords):
+            return
+        import inspect
+        import copy
+        obj = self._resolve_callee(node.func)
+        if obj is None:
+            return
+        try:
+            params = [p_ for p_ in inspect.signature(obj).parameters.values()
+                      if p_.kind in (p_.POSITIONAL_OR_KEYWORD,)]
+        except (TypeError, ValueError):
+            return
+        names = [p_.name for p_ in params]
+        cur = copy.deepcopy(node)
+        while len(cur.args) < len(names):           # keywords -> positions
+            nm = names[len(cur.args)]
+            kw = [k for k in cur.keywords if k.arg == nm]
+            if not kw:
+                break
+            cur = copy.deepcopy(cur)
+            cur.args.append(kw[0].value)
+            cur.keywords = [k for k in cur.keywords if k.arg != nm]
+            yield _norm(cur)
+        cur = copy.deepcopy(node)
+        while cur.args and len(cur.args) <= len(names):     # trailing positions -> keywords
+            nm = names[len(cur.args) - 1]
+            if any(k.arg == nm for k in cur.keywords):
+                break
+            cur = copy.deepcopy(cur)
+            val = cur.args.pop()
+            cur.keywords.append(ast.keyword(arg=nm, value=val))
+            yield _norm(cur)
+
+    def _match_rules(self, node, scope):
         for i, (pat, tmpl, flag) in enumerate(self.r.expr):
             env = {}
             if P.match(pat, node, env):
@@ -201,6 +284,22 @@ class T4(P.Translator2):
                         raise Untranslatable("call shape changed (`%s`: %s is %s, not %s)" % (
                             ast.unparse(node), k, vals.get(k), want))
                 return tmpl.format(**vals), flag
+        return None
+
+    def expr(self, node, scope):
+        node = self._subst(node, scope)
+        got = self._match_rules(node, scope)
+        if got is not None:
+            return got
+        for alt in self._call_variants(node):
+            got = self._match_rules(alt, scope)
+            if got is not None:
+                return got
+        alt = None if isinstance(node, ast.Name) else self._expand_prov(node, scope)
+        if alt is not None:
+            got = self._match_rules(alt, scope)
+            if got is not None:
+                return got
         if isinstance(node, ast.Constant) and isinstance(node.value, float):
             from fractions import Fraction
             q = Fraction(node.value)
@@ -263,6 +362,17 @@ class T4(P.Translator2):
                 known = False
             del self._pending[-1][mark:]
             self._tmp = tmp0
+            if known:
+                e, flag = self.expr(st.value, scope)
+                if flag != "bind":          # a pure let: bound as usual, and the local remembers what it stands for
+                    lines, sc = self.bind_target(st.targets[0], e, scope)
+                    snap = {n.id: scope.get(n.id) for n in ast.walk(st.value) if isinstance(n, ast.Name) and n.id in scope}
+                    snap[st.targets[0].id] = sc[st.targets[0].id]       # any later rebinding of the local ends the memory
+                    self._defer_store.append((st.value, snap))
+                    sc["\0prov:" + st.targets[0].id] = "\0P%d" % (len(self._defer_store) - 1)
+                    return "".join(pad + l + "\n" for l in lines) + self.block(rest, sc, ind, ctx)
+                del self._pending[-1][mark:]
+                self._tmp = tmp0
             if not known:
                 name = st.targets[0].id
                 snap = {n.id: scope.get(n.id) for n in ast.walk(st.value) if isinstance(n, ast.Name) and n.id in scope}
@@ -340,6 +450,7 @@ class T4(P.Translator2):
     def function(self, fn, arg_names, ind=1, allow_unused=("kwargs",)):
         node, _src = P.source_ast(fn)
         node = _norm(node)
+        self._globals = getattr(fn, "__globals__", {})
         a = node.args
         params = [x.arg for x in a.posonlyargs + a.args + a.kwonlyargs]
         if a.vararg:
